@@ -177,6 +177,17 @@ def run(spec, rec):
                 ok3, f1 = rec.noraise("from_phi-returns", lambda: Spectrum.from_phi(pm, ns1, g1, mask_corners=False), site=site, tags=tags)
                 if ok3:
                     rec.close("marginal-consistency", relerr(np.asarray(f1.data), data.sum(axis=ax)), 3 * TOLc * max(1.0, float(np.max(np.abs(ref))) / max(float(np.max(np.abs(data.sum(axis=ax)))), 1e-300)), site=site, tags=tags)
+                # two populations at once, named in descending order, through the Spectrum's own marginalize()
+                if nd >= 3 and ok3:
+                    a2, a1 = sorted(int(v) for v in rng.choice(nd, size=2, replace=False))[::-1]
+                    pm2 = np.tensordot(np.tensordot(phi, gen.trap_weights(cg[a2]), axes=([a2], [0])), gen.trap_weights(cg[a1]), axes=([a1], [0]))
+                    ns2 = [n for k_, n in enumerate(ns) if k_ not in (a1, a2)]
+                    g2 = [g for k_, g in enumerate(grids) if k_ not in (a1, a2)]
+                    ok4, f2 = rec.noraise("from_phi-returns", lambda: Spectrum.from_phi(pm2, ns2, g2, mask_corners=False), site=site, tags=tags)
+                    ok5, fmz = rec.noraise("from_phi-returns", lambda: Spectrum(data, mask_corners=False).marginalize([a2, a1], mask_corners=False), site="Spectrum.marginalize", tags=tags)
+                    if ok4 and ok5:
+                        rec.close("marginal-consistency", relerr(np.asarray(fmz.data), np.asarray(f2.data)), 10 * TOLc * max(1.0, float(np.max(np.abs(ref))) / max(float(np.max(np.abs(f2.data))), 1e-300)),
+                                  site="Spectrum.marginalize", tags=dict(tags, two_axes_descending=True))
             # linear in the density
             phi2 = gen.random_density(rng, (L,) * nd)
             a, b = float(rng.uniform(0.2, 3)), float(rng.uniform(-2, 2))
